@@ -256,3 +256,115 @@ Proof. exists sched_spawnless. vm_compute. split; reflexivity. Qed.
 Example sched_refused_now :
   trace (run [ACancel; APrecheckFail; ASpawnFrame; APostSpawnFail; ASpawnFrame]) = [LSpawned; LStatus 4].
 Proof. vm_compute. reflexivity. Qed.
+
+(* ---- T1: the waiter's join discipline (Gen/PumpJoin.v: the skeleton read from run_pipes_task) ---- *)
+Lemma step_j_wf j s a : join_wf j = true -> step_j j s a = step s a.
+Proof.
+  destruct j as [k0 k1]. unfold join_wf. cbn [j_p0 j_p1]. intros H.
+  destruct k0; try discriminate H. destruct k1; try discriminate H.
+  destruct a; try reflexivity.
+  unfold step_j, step, pump_joined. cbn [j_p0 j_p1 join_waits negb orb].
+  destruct (s_main s); try reflexivity. destruct (s_p0 s), (s_p1 s); reflexivity.
+Qed.
+
+Lemma fold_j_wf j sched : join_wf j = true ->
+  forall s, fold_left (step_skip_j j) sched s = fold_left step_skip sched s.
+Proof.
+  intros H. induction sched as [|a r IH]; intros s; cbn [fold_left]; [reflexivity|].
+  unfold step_skip_j at 2. rewrite (step_j_wf j s a H). apply IH.
+Qed.
+
+Lemma run_j_wf j sched : join_wf j = true -> run_j j sched = run sched.
+Proof. intros H. unfold run_j, run. apply fold_j_wf, H. Qed.
+
+Lemma skel_wf_join ops : skel_wf ops = true -> join_wf (join_spec_of ops) = true.
+Proof. unfold skel_wf. intros H. apply andb_prop in H. exact (proj2 H). Qed.
+
+Lemma run_w_wf ops sched : skel_wf ops = true -> run_w ops sched = run sched.
+Proof. intros H. unfold run_w. apply run_j_wf, skel_wf_join, H. Qed.
+
+Theorem lifecycle_language_skel : forall ops : list wop, skel_wf ops = true -> forall sched : list act,
+  let s := run_w ops sched in
+  let t := trace s in
+  r_prefix_ok (recognise t) = true /\ (s_main s = MEnd <-> r_complete (recognise t) = true).
+Proof. intros ops H sched. cbv zeta. rewrite (run_w_wf ops sched H). exact (lifecycle_language sched). Qed.
+
+Theorem terminal_is_last_skel : forall ops : list wop, skel_wf ops = true -> forall sched more : list act,
+  s_main (run_w ops sched) = MEnd -> trace (run_w ops (sched ++ more)) = trace (run_w ops sched).
+Proof. intros ops H sched more. rewrite !(run_w_wf ops _ H). apply terminal_is_last. Qed.
+
+(* after the terminal frame no pump is reading any more: no append to a log, no delta frame, whatever
+   the process tree does — the terminal frame's byte counts are final *)
+Lemma end_stays_fold more : forall s, Inv s -> s_main s = MEnd -> s_main (fold_left step_skip more s) = MEnd.
+Proof.
+  induction more as [|a r IH]; intros s HI HM; cbn [fold_left]; [exact HM|].
+  destruct (end_is_quiet s a HI HM) as [_ Hm]. apply IH; [apply inv_step_skip, HI|exact Hm].
+Qed.
+
+Theorem no_append_after_terminal : forall (sched more : list act) (i : N),
+  s_main (run sched) = MEnd ->
+  step (run (sched ++ more)) (APumpEmit i) = None /\ step (run (sched ++ more)) (APumpSilent i) = None.
+Proof.
+  intros sched more i HM.
+  pose proof (inv_run (sched ++ more)) as HI.
+  assert (HE : s_main (run (sched ++ more)) = MEnd).
+  { unfold run. rewrite fold_left_app. apply end_stays_fold; [apply inv_run|exact HM]. }
+  unfold Inv in HI. rewrite HE in HI. destruct HI as (Hq0 & Hq1 & _). unfold pump_quiet in *.
+  unfold step, pump_of. destruct (i =? 0).
+  - destruct (s_p0 (run (sched ++ more))); try congruence; split; reflexivity.
+  - destruct (s_p1 (run (sched ++ more))); try congruence; split; reflexivity.
+Qed.
+
+Theorem no_append_after_terminal_skel : forall ops : list wop, skel_wf ops = true ->
+  forall (sched more : list act) (i : N),
+  s_main (run_w ops sched) = MEnd ->
+  step (run_w ops (sched ++ more)) (APumpEmit i) = None /\ step (run_w ops (sched ++ more)) (APumpSilent i) = None.
+Proof. intros ops H sched more i. rewrite !(run_w_wf ops _ H). apply no_append_after_terminal. Qed.
+
+Example waiter_canonical_wf : skel_wf waiter_canonical = true.
+Proof. vm_compute. reflexivity. Qed.
+
+(* seed C17-1 — a bounded wait for the pumps (timeout around the handle): the shell exits, the waiter
+   gives up on the stdout pump, emits the terminal frame, and the descendant's late output arrives after it *)
+Definition sched_late : list act :=
+  [ASpawnFrame; AStartRunning; APumpEmit 0; AChildExit; AWaitReturns true; APumpEof 1; AJoined; AEmitFinal].
+Definition more_late : list act := [APumpEmit 0].
+
+Lemma bounded_join_witness :
+  map wop_shape waiter_bounded = map wop_shape waiter_canonical
+  /\ s_main (run_w waiter_bounded sched_late) = MEnd
+  /\ trace (run_w waiter_bounded sched_late) = [LSpawned; LRunning; LDelta 0; LStatus 2]
+  /\ trace (run_w waiter_bounded (sched_late ++ more_late)) = [LSpawned; LRunning; LDelta 0; LStatus 2; LDelta 0]
+  /\ r_prefix_ok (recognise (trace (run_w waiter_bounded (sched_late ++ more_late)))) = false.
+Proof. vm_compute. repeat split; reflexivity. Qed.
+
+Lemma bounded_join_refuted :
+  exists (ops : list wop) (sched more : list act),
+    map wop_shape ops = map wop_shape waiter_canonical
+    /\ s_main (run_w ops sched) = MEnd
+    /\ trace (run_w ops (sched ++ more)) <> trace (run_w ops sched)
+    /\ r_prefix_ok (recognise (trace (run_w ops (sched ++ more)))) = false.
+Proof.
+  exists waiter_bounded, sched_late, more_late.
+  destruct bounded_join_witness as (H1 & H2 & H3 & H4 & H5).
+  repeat split; try assumption. rewrite H3, H4. discriminate.
+Qed.
+
+(* the obligation is necessary, not only sufficient: EVERY join discipline other than "both handles awaited
+   unconditionally" has a schedule in which a frame follows the terminal frame *)
+Definition sched_leave (i : N) : list act :=
+  [ASpawnFrame; AStartRunning; AChildExit; AWaitReturns true; APumpEof (1 - i); AJoined; AEmitFinal].
+
+Theorem unjoined_pump_refutes : forall j : join_spec, join_wf j = false ->
+  exists (sched more : list act),
+    s_main (run_j j sched) = MEnd
+    /\ trace (run_j j (sched ++ more)) <> trace (run_j j sched)
+    /\ r_prefix_ok (recognise (trace (run_j j (sched ++ more)))) = false.
+Proof.
+  intros [k0 k1] H. unfold join_wf in H. cbn [j_p0 j_p1] in H.
+  destruct k0.
+  - destruct k1; try discriminate H;
+      exists (sched_leave 1), [APumpEmit 1]; vm_compute; (split; [reflexivity|split; [discriminate|reflexivity]]).
+  - exists (sched_leave 0), [APumpEmit 0]; destruct k1; vm_compute; (split; [reflexivity|split; [discriminate|reflexivity]]).
+  - exists (sched_leave 0), [APumpEmit 0]; destruct k1; vm_compute; (split; [reflexivity|split; [discriminate|reflexivity]]).
+Qed.
